@@ -1267,7 +1267,7 @@ class Component(SupportComplexDataType, CanBeVaries):
         >>> print(ce_1 in c.children)
         True
         """
-        if self.is_unknown() and is_base_datatype(self.datatype):
+        if self.is_unknown() and is_base_datatype(self.datatype, self.version):
             # An unknown component can't have a child
             raise ChildNotValid(name, self)
         return self.children.create_element(name)
